@@ -304,6 +304,11 @@ def run_native(ctx, tier: str) -> None:
                         ctx.count("overload_32bit", v)
                 elif k == "mult_gt1" and v:
                     ctx.count("mult_gt1", v)
+                elif k == "small_norm" and v:
+                    ctx.count("small_norm_matrix", v)
+                    ctx.count("native:small_norm", v)
+                elif k == "range_skipped" and v:
+                    ctx.count("native:range_skipped", v)
                 elif k in ("mult_ge17", "total_ge20", "out_of_domain", "f32_overflow_skipped") and v:
                     ctx.count("native:" + k, v)
                 elif k.startswith("skip:") and v:
